@@ -292,6 +292,14 @@ func runC15(c *fw.Case) {
 		m.link = longTail(200 + c.R.Intn(3000))
 		m.sig = signer.sign(c15Payload(m.addr, m.refID, m.link[:len(m.link)-1]+"#"))
 		recs = append(recs, m)
+		// a certificate field may hold a bundle (the signer's certificate followed by further
+		// ones): a signature made with the key of an appended certificate is not a signature
+		// under the certificate the record presents first
+		m = base("signed-by-key-of-an-appended-certificate")
+		m.cert = signer.pem + other.pem
+		m.algo = other.algo
+		m.sig = other.sign(c15Payload(m.addr, m.refID, m.link))
+		recs = append(recs, m)
 		m = base("signed-by-other-key-with-matching-cert")
 		m.cert = other.pem
 		m.algo = other.algo
